@@ -75,7 +75,8 @@ def ensure(variant="hook"):
             shutil.rmtree(copy, ignore_errors=True)
             shutil.copytree(src, copy, ignore=shutil.ignore_patterns("target", "Cargo.lock"))
             ct = os.path.join(copy, "Cargo.toml")
-            open(ct, "w").write(open(ct).read().replace('"/repo/', '"' + REPO.rstrip("/") + "/"))
+            text = open(ct).read().replace('"/repo/', '"' + REPO.rstrip("/") + "/")
+            open(ct, "w").write(text)
             src = copy
         shutil.copyfile(os.path.join(REPO, "Cargo.lock"), os.path.join(src, "Cargo.lock"))
         td = os.path.join(BUILD, "units")
